@@ -189,7 +189,32 @@ pub fn gen_ownership(rng: &mut Rng, tier: &Tier) -> Vec<Case> {
             } else {
                 mk(rng, kind)
             };
-            let mut c = vec![format!("new 1 {}", first), "live".to_string()];
+            // a third of the ring-buffer filters start from a state filled by hand to any level and re-injected through
+            // `from_guts` (what the public state allows): every tap given is owned, none may be lost or dropped twice
+            let injected = (kind == "convolve" || kind == "delay" || kind == "mean") && rng.chance(1, 3);
+            let start = if injected {
+                let cap = if kind == "delay" { rng.range(1, 5) as usize } else { n };
+                let k = rng.range(0, cap as i64) as usize;
+                let taps: Vec<String> = (0..k).map(|_| rng.range(-4, 4).to_string()).collect();
+                let taps = if taps.is_empty() { "-".to_string() } else { taps.join(",") };
+                match kind {
+                    "convolve" => {
+                        let c: Vec<String> = (0..n).map(|_| rng.range(-3, 3).to_string()).collect();
+                        format!("inject 1 convolve c={} taps={} T=tracked", c.join(","), taps)
+                    }
+                    "delay" => format!("inject 1 delay N={} taps={} T=tracked", cap, taps),
+                    _ => format!(
+                        "inject 1 mean N={} taps={} mean={} weight={} T=tracked",
+                        n,
+                        taps,
+                        if rng.chance(1, 3) { "none".to_string() } else { rng.range(-9, 9).to_string() },
+                        rng.range(1, 5)
+                    ),
+                }
+            } else {
+                format!("new 1 {}", first)
+            };
+            let mut c = vec![start, "live".to_string()];
             let mut ids: Vec<u32> = vec![1];
             let mut next = 2u32;
             for _ in 0..rng.range(3, if tier.thorough { 40 } else { 25 }) {
